@@ -2,8 +2,11 @@ package harness
 
 import (
 	"bytes"
+	"context"
 	"fmt"
 	"time"
+
+	proto "github.com/kubewharf/kubebrain-client/api/v2rpc"
 )
 
 // SeqOp is one client write request of a sequential history.
@@ -44,7 +47,13 @@ func (o Outcome) String() string {
 }
 
 // Do executes op on the node and waits until the node's read revision has passed it.
-func (n *Node) Do(op SeqOp) Outcome {
+func (n *Node) Do(op SeqOp) Outcome { return n.DoCtx(Ctx, op) }
+
+// DoCtx is Do with the request context of the caller's choice (a client may have given up already).
+func (n *Node) DoCtx(ctx context.Context, op SeqOp) Outcome {
+	if ctx != Ctx {
+		return n.doCtx(ctx, op)
+	}
 	var out Outcome
 	switch op.Kind {
 	case "create":
@@ -166,4 +175,38 @@ func verStr(v *Ver) string {
 		val = val[:24]
 	}
 	return fmt.Sprintf("(%q,%d)", val, v.Rev)
+}
+
+func (n *Node) doCtx(ctx context.Context, op SeqOp) Outcome {
+	var out Outcome
+	switch op.Kind {
+	case "create":
+		r, err := n.B.Create(ctx, &proto.CreateRequest{Key: []byte(op.Key), Value: op.Val})
+		if err != nil {
+			out.Err = err.Error()
+		} else {
+			out.Succeeded, out.Rev = r.Succeeded, r.Header.GetRevision()
+		}
+	case "update":
+		r, err := n.B.Update(ctx, &proto.UpdateRequest{Kv: &proto.KeyValue{Key: []byte(op.Key), Value: op.Val, Revision: op.Exp}})
+		if err != nil {
+			out.Err = err.Error()
+		} else {
+			out.Succeeded, out.Rev = r.Succeeded, r.Header.GetRevision()
+			if r.Kv != nil {
+				out.HasKv, out.KvVal, out.KvRev = true, r.Kv.Value, r.Kv.Revision
+			}
+		}
+	case "delete":
+		r, err := n.B.Delete(ctx, &proto.DeleteRequest{Key: []byte(op.Key), Revision: op.Exp})
+		if err != nil {
+			out.Err = err.Error()
+		} else {
+			out.Succeeded, out.Rev = r.Succeeded, r.Header.GetRevision()
+			if r.Kv != nil {
+				out.HasKv, out.KvVal, out.KvRev = true, r.Kv.Value, r.Kv.Revision
+			}
+		}
+	}
+	return out
 }
